@@ -152,6 +152,35 @@ def rec_cdfemp(vc, rid, name, base, tr, rng):
     return r
 
 
+def rec_cdfemp_refit(vc, rid, name, rng):
+    """history: empirical_cdf (fills the lazy 1e6-sample cache) -> fit to another data set -> empirical_cdf again;
+    the second value is compared with the empirical cdf of a fresh sample of the re-fitted model (two-sample DKW)."""
+    r = dict(id=rid, kind="cdfemp", exc="", name=name + " after re-fit")
+    try:
+        getter = "get_Nonzero_EW_Hs_S" if "Nonzero" in name else "get_Windmeier_EW_Hs_S"
+        dd, fd, sem, tr = getattr(vc, getter)()
+        A = vc.read_ec_benchmark_dataset(str(REPO / "datasets" / "ec-benchmark_dataset_A_1year.txt")).values
+        C = vc.read_ec_benchmark_dataset(str(REPO / "datasets" / "ec-benchmark_dataset_C_1year.txt")).values
+        t = tmodel(vc, vc.GlobalHierarchicalModel(dd), tr)
+        x = np.array([[2.0, 6.0]])
+        with warnings.catch_warnings():
+            warnings.simplefilter("ignore")
+            import copy as _c
+            t.fit(A, _c.deepcopy(fd))
+            np.random.seed(int(rng.integers(0, 2**31)))
+            t.empirical_cdf(x)
+            t.fit(C, _c.deepcopy(fd))
+            e2 = float(t.empirical_cdf(x)[0])
+            n = 400000
+            s = t.draw_sample(n)
+        e3 = float((s <= x).all(axis=1).mean())
+        # both are empirical: the cached sample has 1e6 points, the fresh one n: use the smaller size for the DKW radius (x2 for two samples)
+        r.update(n=n // 4, d4=clampq(abs(e2 - e3), 1e4))
+    except Exception as e:  # noqa
+        r["exc"] = f"{type(e).__name__}: {e}"[:200]
+    return r
+
+
 def rec_samples(vc, rid, name, base, tr, rng, n):
     t = tmodel(vc, base, tr)
     r = dict(id=rid, kind="samples", exc="", name=name)
@@ -361,6 +390,7 @@ def run(ctx):
         add(rec_samples(vc, nid(), name + " n>1e6", base, tr, rng, ctx.pick(1200000, 3500000)))
     for name, base, tr in models[:ctx.pick(1, 3)]:
         add(rec_cdfemp(vc, nid(), name, base, tr, rng))
+    add(rec_cdfemp_refit(vc, nid(), ["Nonzero_EW_Hs_S", "Windmeier_EW_Hs_S"][ctx.seed % 2], rng))
     qs = ctx.pick([0.5, 0.9, 0.99, 0.999, 0.9999], [0.1, 0.5, 0.9, 0.99, 0.999, 0.9999, 0.99999])
     for name, base, tr in models[:ctx.pick(2, 6)]:
         for q in qs:
